@@ -27,6 +27,11 @@ int g_fault_k = 0;
 int g_fault_rc = SQLITE_IOERR;
 int g_crash_k = 0;   // the process dies right before the k-th prepared statement of the call is first stepped (0 = off)
 bool g_fault_fired = false;
+int g_hook_k = 0;
+std::function<void()> g_hook;
+bool g_hook_fired = false;
+bool g_explain = false;
+int g_seq = 0;
 bool g_logging = true;
 bool g_inside = false;  // the harness's own (independent reader) statements are not counted
 
@@ -55,7 +60,12 @@ void begin_call()
     g_prepared = 0;
     g_writes = 0;
     g_fault_fired = false;
+    g_hook_fired = false;
+    g_seq = 0;
 }
+void set_hook(int k, std::function<void()> fn) { g_hook_k = k; g_hook = std::move(fn); g_hook_fired = false; }
+bool hook_fired() { return g_hook_fired; }
+void set_explain(bool on) { g_explain = on; }
 const std::vector<stmt_rec>& stmts() { return g_stmts; }
 int n_prepared() { return g_prepared; }
 int n_writes() { return g_writes; }
@@ -101,6 +111,24 @@ extern "C"
                     : (sql && strncasecmp(sql, "BEGIN", 5) == 0) ? "begin"
                     : (sql && (strncasecmp(sql, "COMMIT", 6) == 0 || strncasecmp(sql, "END", 3) == 0)) ? "commit"
                     : r.readonly ? "read" : "write";
+            if (g_explain && sql)
+            {
+                // which databases does the statement open a transaction on?  (its own EXPLAIN listing, same connection)
+                std::string ex = "EXPLAIN " + std::string(sql, n >= 0 ? strnlen(sql, (size_t)n) : strlen(sql));
+                sqlite3_stmt* est = nullptr;
+                if (__real_sqlite3_prepare_v2(db, ex.c_str(), -1, &est, nullptr) == SQLITE_OK && est)
+                {
+                    r.explained = true;
+                    while (__real_sqlite3_step(est) == SQLITE_ROW)
+                    {
+                        const unsigned char* opc = sqlite3_column_text(est, 1);
+                        if (opc && strcmp((const char*)opc, "Transaction") == 0)
+                            r.needs.emplace_back(sqlite3_column_int(est, 2), sqlite3_column_int(est, 3));
+                    }
+                }
+                if (est)
+                    sqlite3_finalize(est);
+            }
             if (g_logging)
                 r.sql = sql ? std::string(sql, n >= 0 ? strnlen(sql, (size_t)n) : strlen(sql)) : std::string();
             g_stmts.push_back(std::move(r));
@@ -133,6 +161,18 @@ extern "C"
             g_fault_fired = true;
             g_fault_k = 0;
             return g_fault_rc;
+        }
+        if (rec && rec->rc == -1)
+        {
+            if (g_hook_k > 0 && rec->k == g_hook_k && !g_hook_fired)
+            {
+                g_hook_fired = true;
+                g_hook_k = 0;
+                if (g_hook)
+                    g_hook();
+            }
+            rec->seq = ++g_seq;
+            rec->after_hook = g_hook_fired;
         }
         sqlite3* dbh = rec ? sqlite3_db_handle(stmt) : nullptr;
         long chg0 = dbh ? sqlite3_total_changes(dbh) : 0;
